@@ -69,6 +69,38 @@ def run(ctx):
             if fm:
                 kw["date_formats"] = fm
             cases.append({"s": s, "kw": kw, "settings": st, "api": rng.choice(["ddp", "ddp", "parse"]), "probe": True, "valid": True})
+        # strings that MATCH their format: rendered from a datetime with a generated format (the random pairs above almost
+        # never match), offset-bearing directives (%z, %Z) and the ends of the datetime range included
+        import datetime as _dtm
+        from ..c02gen import DIRECTIVES
+        for _ in range(n // 6):
+            ds = rng.sample([d for d in DIRECTIVES if d != "%%"], rng.randint(1, 7))
+            if rng.random() < 0.5 and "%z" not in ds:
+                ds.append("%z")
+            fmt = "".join(d + rng.choice(["", " ", "-", "/", ":", ".", ", ", "T"]) for d in ds).strip()
+            y = rng.choice([1, 2, 1000, 1969, 1970, 2021, 2038, 9998, 9999, rng.randint(1, 9999)])
+            tz = rng.choice([_dtm.timezone.utc, _dtm.timezone(_dtm.timedelta(minutes=rng.choice([330, -210, 840, -720, 60, 345, -1, 1439, -1439])))])
+            try:
+                d0 = _dtm.datetime(y, rng.choice([1, 2, 12, rng.randint(1, 12)]), rng.choice([1, 28, rng.randint(1, 28)]), rng.choice([0, 12, 23]), rng.choice([0, 59]),
+                                   rng.choice([0, 59]), rng.choice([0, 999999, 120]), tzinfo=tz)
+                s = d0.strftime(fmt)
+                if y < 1000:
+                    s = s.replace(str(y), "%04d" % y, 1) if "%Y" in fmt else s
+            except (ValueError, OverflowError):
+                continue
+            if rng.random() < 0.3:
+                s = s.replace("+", rng.choice(["+", " +", "-"]), 1)
+            kw = rng.choice([{}, {"languages": ["en"]}, {"languages": [rng.choice(order)]}, {"locales": [rng.choice(locales)]}])
+            kw = dict(kw)
+            kw["date_formats"] = rng.sample([fmt, "%d.%m.%Y", "%Y"], rng.randint(1, 3)) if rng.random() < 0.4 else [fmt]
+            st_ = rng.choice(pool)
+            if rng.random() < 0.5:
+                # every kind of TIMEZONE / TO_TIMEZONE value the library resolves: tz database names, its own abbreviations,
+                # numeric offsets in their spellings
+                st_ = dict(st_ or {})
+                st_[rng.choice(["TIMEZONE", "TIMEZONE", "TO_TIMEZONE"])] = rng.choice(["UTC", "Europe/Paris", "EST", "+0300", "UTC+3", "PKT", "-0500", "PST", "UTC-12:00",
+                                                                                       "UTC+14:00", "+05:30", "GMT+1", "NPT", "AKST", "Asia/Kathmandu", "America/St_Johns"])
+            cases.append({"s": s[:100], "kw": kw, "settings": st_, "api": rng.choice(["ddp", "parse"]), "probe": True, "valid": True})
         directed = [
             ("9999-12-31 23:59 -0500", {}, {"TIMEZONE": "UTC"}), ("0001-01-01 00:00 +1400", {}, {"TIMEZONE": "UTC"}),
             ("11\u66424\u5206", {}, {"RELATIVE_BASE": [1, 1, 1, 0, 0, 0, 0], "PREFER_DATES_FROM": "past"}),
